@@ -122,6 +122,183 @@ def hash_chain(repo):
     return prefs, picks[pick]
 
 
+def _nodoc(body):
+    return [x for x in body if not (isinstance(x, ast.Expr) and isinstance(x.value, ast.Constant) and isinstance(x.value.value, str))]
+
+
+def _u(n):
+    return ast.unparse(n).replace(" ", "")
+
+
+def generate_id_shape(repo):
+    """shape of _Observable._generate_id (stix2/base.py) -> dict of facts; aborts on an unknown statement pattern"""
+    tree = ast.parse(open(os.path.join(repo, "stix2", "base.py"), encoding="utf-8").read())
+    cls = [n for n in tree.body if isinstance(n, ast.ClassDef) and n.name == "_Observable"]
+    if len(cls) != 1:
+        raise TranslateError("stix2/base.py: class _Observable not found")
+    fn = [n for n in cls[0].body if isinstance(n, ast.FunctionDef) and n.name == "_generate_id"]
+    if len(fn) != 1:
+        raise TranslateError("_Observable._generate_id not found")
+    body = _nodoc(fn[0].body)
+    if len(body) != 5:
+        raise TranslateError("_generate_id: expected 5 statements (id_ = None; dict = {}; for; if; return), found %d" % len(body))
+    a0, a1, loop, guard, ret = body
+    if _u(a0) != "id_=None" or not (isinstance(a1, ast.Assign) and _u(a1.value) == "{}") or _u(ret) != "returnid_":
+        raise TranslateError("_generate_id: prologue / return not understood")
+    dname = _u(a1.targets[0])
+    if not isinstance(loop, ast.For) or loop.orelse or _u(loop.target) != "key":
+        raise TranslateError("_generate_id: loop not understood")
+    facts = {"loop_over": ast.unparse(loop.iter)}
+    lb = _nodoc(loop.body)
+    # presence test and value
+    if len(lb) == 1 and isinstance(lb[0], ast.If) and not lb[0].orelse:
+        test = _u(lb[0].test)
+        inner = _nodoc(lb[0].body)
+        facts["presence"] = "PresenceIn" if test == "keyinself" else "(PresenceOther %s)" % ustr(ast.unparse(lb[0].test))
+        if not (inner and isinstance(inner[0], ast.Assign) and _u(inner[0].targets[0]) == "obj_value"):
+            raise TranslateError("_generate_id: `obj_value = ...` not found")
+        vsrc = _u(inner[0].value)
+        facts["value"] = {"self[key]": "ValueIndex", "self.get(key)": "ValueGet"}.get(vsrc, "(ValueOther %s)" % ustr(vsrc))
+        rest = inner[1:]
+    elif len(lb) == 2 and isinstance(lb[0], ast.Assign) and _u(lb[0].targets[0]) == "obj_value" and isinstance(lb[1], ast.If) \
+            and not lb[1].orelse:
+        vsrc = _u(lb[0].value)
+        facts["value"] = {"self[key]": "ValueIndex", "self.get(key)": "ValueGet"}.get(vsrc, "(ValueOther %s)" % ustr(vsrc))
+        test = _u(lb[1].test)
+        facts["presence"] = {"obj_value": "PresenceTruthy", "keyinself": "PresenceIn"}.get(
+            test, "(PresenceOther %s)" % ustr(ast.unparse(lb[1].test)))
+        rest = _nodoc(lb[1].body)
+    else:
+        raise TranslateError("_generate_id: loop body not understood")
+    # if key == "hashes": v = f(obj_value); if v is None: raise E(...)  else: v = g(obj_value);  d[key] = v
+    if not (len(rest) == 2 and isinstance(rest[0], ast.If) and isinstance(rest[1], ast.Assign)):
+        raise TranslateError("_generate_id: hashes dispatch / store not understood")
+    disp, store = rest
+    t = disp.test
+    if not (isinstance(t, ast.Compare) and len(t.ops) == 1 and isinstance(t.ops[0], ast.Eq) and _u(t.left) == "key"
+            and isinstance(t.comparators[0], ast.Constant) and isinstance(t.comparators[0].value, str)):
+        raise TranslateError("_generate_id: special-case test is not `key == <literal>`")
+    facts["hashes_key"] = t.comparators[0].value
+    hb, ob = _nodoc(disp.body), _nodoc(disp.orelse)
+    def call_of(st):
+        if isinstance(st, ast.Assign) and _u(st.targets[0]) == "serializable_value" and isinstance(st.value, ast.Call) \
+                and len(st.value.args) == 1 and not st.value.keywords and _u(st.value.args[0]) == "obj_value":
+            return ast.unparse(st.value.func)
+        raise TranslateError("_generate_id: `serializable_value = f(obj_value)` expected, got " + ast.unparse(st)[:80])
+    if len(hb) != 2 or len(ob) != 1:
+        raise TranslateError("_generate_id: branches of the hashes dispatch not understood")
+    facts["hashes_fn"] = call_of(hb[0])
+    g = hb[1]
+    if not (isinstance(g, ast.If) and _u(g.test) == "serializable_valueisNone" and not g.orelse and len(g.body) == 1
+            and isinstance(g.body[0], ast.Raise) and isinstance(g.body[0].exc, ast.Call)):
+        raise TranslateError("_generate_id: `if serializable_value is None: raise ...` not understood")
+    facts["hashes_none_raises"] = ast.unparse(g.body[0].exc.func)
+    facts["other_fn"] = call_of(ob[0])
+    if _u(store) != "%s[key]=serializable_value" % dname:
+        raise TranslateError("_generate_id: store into the dictionary not understood")
+    # if d: data = canonicalize(d, utf8=False); uuid_ = uuid.uuid5(NS, data); id_ = "{}--{}".format(self._type, str(uuid_))
+    facts["nonempty_guard"] = isinstance(guard, ast.If) and _u(guard.test) == dname and not guard.orelse
+    gb = _nodoc(guard.body) if isinstance(guard, ast.If) else []
+    if len(gb) != 3 or not all(isinstance(x, ast.Assign) and isinstance(x.value, ast.Call) for x in gb):
+        raise TranslateError("_generate_id: id computation not understood")
+    c, u5, fm = gb
+    if not (_u(c.targets[0]) == "data" and len(c.value.args) == 1 and _u(c.value.args[0]) == dname):
+        raise TranslateError("_generate_id: canonicalization call not understood")
+    facts["canon_fn"] = ast.unparse(c.value.func)
+    kws = {k.arg: k.value for k in c.value.keywords}
+    if set(kws) - {"utf8"}:
+        raise TranslateError("_generate_id: unexpected keyword of the canonicalization call")
+    facts["canon_utf8"] = None if "utf8" not in kws else ast.literal_eval(kws["utf8"])
+    if not (_u(u5.targets[0]) == "uuid_" and len(u5.value.args) == 2 and not u5.value.keywords and _u(u5.value.args[1]) == "data"):
+        raise TranslateError("_generate_id: uuid call not understood")
+    facts["uuid_fn"] = ast.unparse(u5.value.func)
+    facts["namespace_name"] = ast.unparse(u5.value.args[0])
+    f = fm.value
+    if not (_u(fm.targets[0]) == "id_" and isinstance(f.func, ast.Attribute) and f.func.attr == "format"
+            and isinstance(f.func.value, ast.Constant) and isinstance(f.func.value.value, str) and not f.keywords):
+        raise TranslateError("_generate_id: id formatting not understood")
+    facts["id_format"] = f.func.value.value
+    facts["id_args"] = [ast.unparse(x) for x in f.args]
+    return facts
+
+
+def mjs_shape(repo):
+    """dispatch of _make_json_serializable (stix2/base.py), test by test"""
+    tree = ast.parse(open(os.path.join(repo, "stix2", "base.py"), encoding="utf-8").read())
+    fn = [n for n in tree.body if isinstance(n, ast.FunctionDef) and n.name == "_make_json_serializable"]
+    if len(fn) != 1 or [a.arg for a in fn[0].args.args] != ["value"]:
+        raise TranslateError("_make_json_serializable(value) not found")
+    body = _nodoc(fn[0].body)
+    if len(body) != 4:
+        raise TranslateError("_make_json_serializable: expected 4 statements, found %d" % len(body))
+    none, init, chain, ret = body
+    steps = []
+    if not (isinstance(none, ast.If) and _u(none.test) == "valueisNone" and len(none.body) == 1 and isinstance(none.body[0], ast.Raise)
+            and isinstance(none.body[0].exc, ast.Call) and not none.orelse):
+        raise TranslateError("_make_json_serializable: None test not understood")
+    steps.append("(MNoneRaises %s)" % ustr(ast.unparse(none.body[0].exc.func)))
+    if _u(init) != "json_value=value" or _u(ret) != "returnjson_value":
+        raise TranslateError("_make_json_serializable: default / return not understood")
+    node = chain
+    while True:
+        if not isinstance(node, ast.If):
+            raise TranslateError("_make_json_serializable: dispatch is not an if/elif chain")
+        t = _u(node.test)
+        b = "".join(_u(x) for x in _nodoc(node.body))
+        if t == "isinstance(value,collections.abc.Mapping)":
+            if b != "json_value={k:_make_json_serializable(v)fork,vinvalue.items()}":
+                raise TranslateError("_make_json_serializable: Mapping branch not understood")
+            steps.append("MMappingRecurse")
+        elif t == "isinstance(value,list)":
+            if b != "json_value=[_make_json_serializable(v)forvinvalue]":
+                raise TranslateError("_make_json_serializable: list branch not understood")
+            steps.append("MListRecurse")
+        elif t.startswith("notisinstance(value,(") and t.endswith("))"):
+            excluded = t[len("notisinstance(value,("):-2].split(",")
+            nb = _nodoc(node.body)
+            if len(nb) != 2 or not isinstance(nb[0], ast.Assign) or not isinstance(nb[0].value, ast.Call):
+                raise TranslateError("_make_json_serializable: fallback branch not understood")
+            call = nb[0].value
+            kws = {k.arg: _u(k.value) for k in call.keywords}
+            if ast.unparse(call.func) != "json.dumps" or _u(call.args[0]) != "value" or set(kws) != {"ensure_ascii", "cls"}:
+                raise TranslateError("_make_json_serializable: json.dumps call not understood")
+            strip = _u(nb[1]).replace("\n", "").replace("(", "").replace(")", "") == (
+                "iflenjson_value>=2andjson_value[0]=='\"'andjson_value[-1]=='\"':"
+                "json_value=_un_json_escapejson_value[1:-1]")
+            steps.append("(MOtherDumps [%s] %s %s %s)" % ("; ".join(ustr(x) for x in excluded), ustr(kws["cls"]),
+                                                          "true" if kws["ensure_ascii"] == "True" else "false",
+                                                          "true" if strip else "false"))
+        else:
+            raise TranslateError("_make_json_serializable: test not understood: " + ast.unparse(node.test)[:80])
+        if len(node.orelse) == 1 and isinstance(node.orelse[0], ast.If):
+            node = node.orelse[0]
+        elif not node.orelse:
+            break
+        else:
+            raise TranslateError("_make_json_serializable: trailing else not understood")
+    return steps
+
+
+def init21_shape(repo):
+    tree = ast.parse(open(os.path.join(repo, "stix2", "v21", "base.py"), encoding="utf-8").read())
+    cls = [n for n in tree.body if isinstance(n, ast.ClassDef) and n.name == "_Observable"]
+    if len(cls) != 1:
+        raise TranslateError("stix2/v21/base.py: class _Observable not found")
+    fn = [n for n in cls[0].body if isinstance(n, ast.FunctionDef) and n.name == "__init__"]
+    if len(fn) != 1:
+        raise TranslateError("v21 _Observable.__init__ not found")
+    body = _nodoc(fn[0].body)
+    if len(body) != 2 or _u(body[0]) != "super(_Observable,self).__init__(**kwargs)" or not isinstance(body[1], ast.If):
+        raise TranslateError("v21 _Observable.__init__: body not understood")
+    g = body[1]
+    gb = _nodoc(g.body)
+    guard = _u(g.test) == "'id'notinkwargs" and not g.orelse
+    calls = len(gb) == 2 and _u(gb[0]) == "id_=self._generate_id()"
+    repl = len(gb) == 2 and isinstance(gb[1], ast.If) and _u(gb[1].test) == "id_isnotNone" and not gb[1].orelse \
+        and "".join(_u(x) for x in _nodoc(gb[1].body)) == "self._inner['id']=id_"
+    return guard, calls, repl
+
+
 def dump(repo, py="/venv/bin/python"):
     env = dict(os.environ)
     env["PYTHONPATH"] = repo
@@ -136,11 +313,15 @@ def dump(repo, py="/venv/bin/python"):
 def translate(repo, py="/venv/bin/python"):
     d = dump(repo, py)
     prefs, pick = hash_chain(repo)
+    gi = generate_id_shape(repo)
+    mjs = mjs_shape(repo)
+    i21 = init21_shape(repo)
+    b = lambda x: "true" if x else "false"
     rows = ";\n    ".join("(%s, [%s])" % (ustr(ty), "; ".join(ustr(x) for x in l)) for ty, l in d["table"].items())
     text = "\n".join([
         "(* GENERATED by translators/tr_scoid.py from /repo (live 2.1 observable registry, stix2/base.py) -- do not edit *)",
         "From Coq Require Import NArith List String.",
-        "From V Require Import Base.UString Model.ScoId.",
+        "From V Require Import Base.UString Model.ScoId Model.ScoIdSrc.",
         "Import ListNotations.",
         "",
         "Definition gen_sco_table_raw : list (ustring * list ustring) :=",
@@ -153,5 +334,20 @@ def translate(repo, py="/venv/bin/python"):
         "",
         "Definition gen_namespace : ustring := Eval vm_compute in %s." % ustr(d["namespace"]),
         "",
+        "(* shape of _Observable._generate_id, _make_json_serializable (stix2/base.py), v21 _Observable.__init__ *)",
+        "Definition gen_genid : genid_src := Eval vm_compute in",
+        "  {| gs_loop_over := %s; gs_presence := %s; gs_value := %s;" % (ustr(gi["loop_over"]), gi["presence"], gi["value"]),
+        "     gs_hashes_key := %s; gs_hashes_fn := %s; gs_hashes_none_raises := %s;" % (
+            ustr(gi["hashes_key"]), ustr(gi["hashes_fn"]), ustr(gi["hashes_none_raises"])),
+        "     gs_other_fn := %s; gs_nonempty_guard := %s;" % (ustr(gi["other_fn"]), b(gi["nonempty_guard"])),
+        "     gs_canon_fn := %s; gs_canon_utf8 := %s;" % (ustr(gi["canon_fn"]),
+                                                          "None" if gi["canon_utf8"] is None else "(Some %s)" % b(gi["canon_utf8"])),
+        "     gs_uuid_fn := %s; gs_namespace_name := %s;" % (ustr(gi["uuid_fn"]), ustr(gi["namespace_name"])),
+        "     gs_id_format := %s; gs_id_args := [%s] |}." % (ustr(gi["id_format"]), "; ".join(ustr(x) for x in gi["id_args"])),
+        "Definition gen_mjs : list mjs_step := Eval vm_compute in [%s]." % "; ".join(mjs),
+        "Definition gen_init21 : init21_src :=",
+        "  {| is_guard_id_not_in_kwargs := %s; is_calls_generate_id := %s; is_replaces_only_when_not_none := %s |}." % tuple(b(x) for x in i21),
+        "",
     ])
-    return text, {"table": d["table"], "namespace": d["namespace"], "prefs": prefs, "pick": pick}
+    return text, {"table": d["table"], "namespace": d["namespace"], "prefs": prefs, "pick": pick,
+                  "presence": gi["presence"], "value": gi["value"]}
